@@ -36,7 +36,7 @@ VARIABLE hist                 \* the frame indices taken so far (hidden from the
 mvars == << svars, hist >>
 View == svars
 
-MaxDepth == 4
+MaxDepth == IF "MCDEPTH" \in DOMAIN IOEnv THEN atoi(IOEnv.MCDEPTH) ELSE 4
 MaxStream == 48
 
 MCInit ==
